@@ -130,6 +130,7 @@ package governance
 //@   ensures result0 ==> len(tx.Signatures) == 2 && sigOK(rawBytesOf(tx.RawTx), unm(tx.Data, "VoteProposal").Address, tx.Signatures[0]) && sigOK(rawBytesOf(tx.RawTx), unm(tx.Data, "VoteProposal").ValidatorAddress, tx.Signatures[1])   // C04.validate
 //@   exports len(sigs) == 2                                                                                                           // C04.validated-facts
 //@   exports raw.Fee.Price.Currency == ctx.FeePool.feeOpt.FeeCurrency.Name && raw.Fee.Price.Value >= 0                               // C04.validated-facts
+//@   exports 0 <= unm(raw.Data, "VoteProposal").Opinion && unm(raw.Data, "VoteProposal").Opinion <= 3                                // C18.validated-facts
 
 //@ func (voteProposalTx).ProcessCheck
 //@   implements action.Tx
@@ -140,6 +141,7 @@ package governance
 
 //@ func runVote
 //@   requires ctxOK(ctx)                                                                                                                // C18.ctx
+//@   requires 0 <= gVoteMsg(tx.Data).Opinion && gVoteMsg(tx.Data).Opinion <= 3                                                        // C18.validated-facts
 //@   assumes gGovCtx(ctx)                                                                                                               // A-GOVCTX proposal stores present and well formed (not yet part of action.ctxOK)
 //@   ensures result0 ==> old(gaHas(ctx, gVoteMsg(tx.Data).ProposalID)) && old(gaRec(ctx, gVoteMsg(tx.Data).ProposalID)).Status == stVoting() && ctx.Header.Height <= old(gaRec(ctx, gVoteMsg(tx.Data).ProposalID)).VotingDeadline   // C14.vote-guard
 // the record updated is the snapshot record of (proposal, validator); only its opinion changes, powers and membership stay
